@@ -177,18 +177,24 @@ namespace rkcommon {
     template <typename T>
     inline Optional<T> &Optional<T>::operator=(const Optional &other)
     {
-      default_construct_storage_if_needed();
-      value()  = other.value();
-      hasValue = true;
+      if (!other.has_value())
+        reset();
+      else if (has_value())
+        value() = other.value();
+      else
+        emplace(other.value());
       return *this;
     }
 
     template <typename T>
     inline Optional<T> &Optional<T>::operator=(Optional &&other)
     {
-      default_construct_storage_if_needed();
-      value()  = std::move(other.value());
-      hasValue = true;
+      if (!other.has_value())
+        reset();
+      else if (has_value())
+        value() = std::move(other.value());
+      else
+        emplace(std::move(other.value()));
       return *this;
     }
 
@@ -215,9 +221,12 @@ namespace rkcommon {
                     " parameter of an instance being copied-from be"
                     " convertible to the type parameter of the destination"
                     " Optional<>.");
-      default_construct_storage_if_needed();
-      value()  = other.value();
-      hasValue = true;
+      if (!other.has_value())
+        reset();
+      else if (has_value())
+        value() = other.value();
+      else
+        emplace(other.value());
       return *this;
     }
 
@@ -230,9 +239,12 @@ namespace rkcommon {
                     " parameter of an instance being moved-from be"
                     " convertible to the type parameter of the destination"
                     " Optional<>.");
-      default_construct_storage_if_needed();
-      value()  = other.value();
-      hasValue = true;
+      if (!other.has_value())
+        reset();
+      else if (has_value())
+        value() = other.value();
+      else
+        emplace(other.value());
       return *this;
     }
 
